@@ -38,6 +38,9 @@ pub struct ReaderSpec {
     /// register a Warmer that fingerprints every searcher generation it is given
     #[serde(default)]
     pub warmer: bool,
+    /// ReloadPolicy::OnCommitWithDelay: the reader is reloaded by the directory's watcher, the thread only observes
+    #[serde(default)]
+    pub auto: bool,
 }
 #[derive(Clone, Debug, Serialize, Deserialize)]
 pub struct ReadersCase {
@@ -119,11 +122,11 @@ impl Sub for Readers {
             1 => Just(Op::Reopen),
             2 => Just(Op::Gc),
         ];
-        let reader = (any::<bool>(), 1u8..4, prop::option::weighted(0.6, 0u8..12), any::<bool>()).prop_map(|(second_index, hold_every, gate_nth, warmer)| ReaderSpec { second_index, hold_every, gate_nth, warmer });
+        let reader = (any::<bool>(), 1u8..4, prop::option::weighted(0.6, 0u8..12), any::<bool>(), prop::bool::weighted(0.3)).prop_map(|(second_index, hold_every, gate_nth, warmer, auto)| ReaderSpec { second_index, hold_every, gate_nth, warmer, auto });
         (cfg, prop::collection::vec(op, 6..50), prop::collection::vec(reader, 1..4)).prop_map(|(cfg, ops, readers)| ReadersCase { cfg, ops, readers }).boxed()
     }
     fn mandatory_labels(&self, _t: Tier) -> Vec<&'static str> {
-        vec!["reload_overlapped_commit", "held_outlived_2_commits", "gate_reached", "second_index", "dir:Mmap", "merge", "gc", "warmer", "warmed_generations>=3"]
+        vec!["reload_overlapped_commit", "held_outlived_2_commits", "gate_reached", "second_index", "dir:Mmap", "merge", "gc", "warmer", "warmed_generations>=3", "reload_policy:on_commit", "watcher_reload_advanced_between_commits", "watcher_reload_reached_last_commit"]
     }
     fn run(&self, c: &ReadersCase, cx: &Ctx) -> CaseResult {
         let mut env = Env::new(c.cfg.clone())?;
@@ -172,6 +175,7 @@ impl Sub for Readers {
                 let stop = stop.clone();
                 let hold_every = r.hold_every.max(1) as usize;
                 let use_warmer = r.warmer;
+                let auto = r.auto;
                 handles.push(
                     std::thread::Builder::new()
                         .name(format!("reader-{i}"))
@@ -179,7 +183,7 @@ impl Sub for Readers {
                             let (_s, f) = hist_schema();
                             let mut out = ReaderOut { obs: vec![], held: vec![], error: None, reader: None, warmed: 0, unwarmed: 0 };
                             let warmer: Option<Arc<RecWarmer>> = if use_warmer { Some(Arc::new(RecWarmer::default())) } else { None };
-                            let mut builder = index.reader_builder().reload_policy(ReloadPolicy::Manual);
+                            let mut builder = index.reader_builder().reload_policy(if auto { ReloadPolicy::OnCommitWithDelay } else { ReloadPolicy::Manual });
                             if let Some(w) = &warmer {
                                 let dynw: Arc<dyn tantivy::Warmer> = w.clone();
                                 builder = builder.warmers(vec![Arc::downgrade(&dynw)]);
@@ -229,11 +233,18 @@ impl Sub for Readers {
                                     .expect("spawn poller")
                             });
                             let mut prev_gen: Option<(u64, u64)> = None;
+                            let mut after_stop = 0u32;
                             let mut n = 0usize;
                             loop {
                                 let finishing = stop.load(Ordering::SeqCst);
                                 let before = clock.fetch_add(1, Ordering::SeqCst);
-                                if let Err(e) = reader.reload() {
+                                if auto {
+                                    // reloaded by the watcher; after the history ended give it a moment to catch up
+                                    std::thread::sleep(Duration::from_micros(if finishing { 3000 } else { 300 }));
+                                    if finishing {
+                                        after_stop += 1;
+                                    }
+                                } else if let Err(e) = reader.reload() {
                                     out.error = Some(Failure::new("reload_failed", format!("reload #{n}: {e:?}")));
                                     break;
                                 }
@@ -307,7 +318,7 @@ impl Sub for Readers {
                                     }
                                 }
                                 n += 1;
-                                if finishing || n > 4000 {
+                                if (finishing && (!auto || after_stop >= 40)) || n > 4000 {
                                     break;
                                 }
                                 std::thread::yield_now();
@@ -358,6 +369,8 @@ impl Sub for Readers {
         let model_fps: Vec<u64> = env.models.iter().map(model_fingerprint).collect();
         let (_s, f) = hist_schema();
         let mut overlapped = false;
+        let mut auto_advanced = false;
+        let mut auto_caught_up = false;
         let mut outlived = false;
         let mut reloads = 0u64;
         for (ri, out) in outs.iter().enumerate() {
@@ -367,7 +380,8 @@ impl Sub for Readers {
             let mut prev_j = 0u64;
             for (oi, o) in out.obs.iter().enumerate() {
                 reloads += 1;
-                let j_min = spans.iter().filter(|(_, _, end)| *end <= o.before).map(|(j, _, _)| *j).max().unwrap_or(0);
+                // (a watcher-driven reader has no reload call whose start bounds the commit from below: only monotonicity)
+                let j_min = if c.readers[ri].auto { 0 } else { spans.iter().filter(|(_, _, end)| *end <= o.before).map(|(j, _, _)| *j).max().unwrap_or(0) };
                 let j_max = spans.iter().filter(|(_, start, _)| *start <= o.after).map(|(j, _, _)| *j).max().unwrap_or(0);
                 if spans.iter().any(|(_, s, e)| *s <= o.after && o.before <= *e) {
                     overlapped = true;
@@ -375,7 +389,15 @@ impl Sub for Readers {
                 let lo = j_min.max(prev_j);
                 let found = (lo..=j_max).find(|j| model_fps[*j as usize] == o.fp);
                 match found {
-                    Some(j) => prev_j = j,
+                    Some(j) => {
+                        if c.readers[ri].auto && j > prev_j && prev_j > 0 {
+                            auto_advanced = true;
+                        }
+                        if c.readers[ri].auto && oi + 1 == out.obs.len() && j == env.commits {
+                            auto_caught_up = true;
+                        }
+                        prev_j = j
+                    }
                     None => {
                         let anywhere: Vec<usize> = model_fps.iter().enumerate().filter(|(_, m)| **m == o.fp).map(|(j, _)| j).collect();
                         let sig = if anywhere.is_empty() {
@@ -416,6 +438,9 @@ impl Sub for Readers {
         cx.label_if(env.stats.merges > 0, "merge");
         cx.label_if(env.stats.gc > 0, "gc");
         cx.label_if(c.readers.iter().any(|r| r.warmer), "warmer");
+        cx.label_if(c.readers.iter().any(|r| r.auto), "reload_policy:on_commit");
+        cx.label_if(auto_advanced, "watcher_reload_advanced_between_commits");
+        cx.label_if(auto_caught_up, "watcher_reload_reached_last_commit");
         cx.label_if(outs.iter().any(|o| o.warmed >= 3), "warmed_generations>=3");
         cx.count("searchers_seen_before_their_warm_call_returned", outs.iter().map(|o| o.unwarmed as u64).sum());
         if overlapped || outlived {
